@@ -25,6 +25,8 @@ pub open spec fn latest_of(s: Store) -> Option<Uuid> {
 pub struct ObjectInfo { pub name: String, pub creation: u64 }
 pub trait Service {
     spec fn objs(&self) -> Store;
+    /// creation time of each object (seconds since the epoch) as `list` reports it
+    spec fn ctimes(&self) -> Map<Seq<char>, u64>;
     fn put(&mut self, name: &str, value: &[u8]) -> (r: Result<()>)
         ensures r is Ok ==> final(self).objs() == old(self).objs().insert(name@, value@),
             r is Err ==> final(self).objs() == old(self).objs() || final(self).objs() == old(self).objs().insert(name@, value@);
@@ -32,6 +34,12 @@ pub trait Service {
         ensures final(self).objs() == old(self).objs(),
             r matches Ok(Some(v)) ==> old(self).objs().dom().contains(name@) && v@ == old(self).objs()[name@],
             r matches Ok(None) ==> !old(self).objs().dom().contains(name@);
+    /// "Enumerate objects with the given prefix": every object whose name starts with the prefix, once, with its creation time
+    fn list(&mut self, prefix: &str) -> (r: ObjIter)
+        ensures final(self).objs() == old(self).objs(),
+            r.names().no_duplicates(), r.ctimes().len() == r.names().len(),
+            forall|n: Seq<char>| #![trigger r.names().contains(n)] r.names().contains(n) <==> old(self).objs().dom().contains(n) && prefix@.is_prefix_of(n),
+            forall|i: int| 0 <= i < r.names().len() ==> #[trigger] r.ctimes()[i] == old(self).ctimes()[r.names()[i]];
     fn del(&mut self, name: &str) -> (r: Result<()>)
         ensures r is Ok ==> final(self).objs() == old(self).objs().remove(name@),
             r is Err ==> final(self).objs() == old(self).objs() || final(self).objs() == old(self).objs().remove(name@);
@@ -63,3 +71,69 @@ pub fn into_conv<T, U: From<T>>(x: T) -> (r: U)
 /// `Vec<u8>` as the salt of a Cryptor: `AsRef<[u8]>` yields its bytes (std)
 pub axiom fn axiom_vec_as_ref_bytes(v: &Vec<u8>)
     ensures as_ref_bytes::<Vec<u8>>(v) == v@;
+
+// ---- listing (src/server/cloud/iter.rs: a boxed async iterator; here: the names still to come, with their creation times) ----
+#[verifier::external_body]
+pub struct ObjIter { _p: u8 }
+impl ObjIter {
+    pub uninterp spec fn names(&self) -> Seq<Seq<char>>;
+    pub uninterp spec fn ctimes(&self) -> Seq<u64>;
+    /// AsyncObjectIterator::next: the next object, an error (after which the callers stop), or None at the end
+    #[verifier::external_body]
+    pub fn next(&mut self) -> (r: Option<Result<ObjectInfo>>)
+        ensures final(self).ctimes().len() == final(self).names().len(),
+            match r {
+                None => old(self).names().len() == 0 && final(self).names() == old(self).names(),
+                Some(Ok(info)) => old(self).names().len() > 0 && info.name@ == old(self).names()[0] && info.creation == old(self).ctimes()[0]
+                    && final(self).names() == old(self).names().skip(1) && final(self).ctimes() == old(self).ctimes().skip(1),
+                Some(Err(_)) => true,
+            }
+    { unimplemented!() }
+}
+/// the object names as the prefixes used for listing see them (the real names are built by format!, hashed by //@watch)
+pub axiom fn axiom_name_prefixes(p: Uuid, c: Uuid)
+    ensures "v-"@.is_prefix_of(vname(p, c)), "s-"@.is_prefix_of(sname(p)),
+        !"v-"@.is_prefix_of(sname(p)), !"s-"@.is_prefix_of(vname(p, c)),
+        !"v-"@.is_prefix_of(latest_name()), !"s-"@.is_prefix_of(latest_name()), !"v-"@.is_prefix_of("salt"@), !"s-"@.is_prefix_of("salt"@);
+// ---- rule R34: `X.sort();` on a Vec -- a permutation in ascending order of `Ord`; for tuples the order is lexicographic, so the
+// ---- first components ascend (TRUSTED: std's sort and the derived tuple order)
+pub uninterp spec fn ord_le<T>(a: T, b: T) -> bool;
+pub open spec fn sorted_by_first<A, B, C>(v: Seq<(A, B, C)>) -> bool { forall|i: int, j: int| 0 <= i <= j < v.len() ==> ord_le(#[trigger] v[i].0, #[trigger] v[j].0) }
+#[verifier::external_body]
+pub fn vec_sort<A, B, C>(v: &mut Vec<(A, B, C)>)
+    ensures final(v)@.len() == old(v)@.len(), sorted_by_first(final(v)@),
+        forall|x: (A, B, C)| #![trigger final(v)@.contains(x)] final(v)@.contains(x) <==> old(v)@.contains(x),
+{ unimplemented!() }
+/// rule R35: `v.binary_search_by_key(&k, |t| t.0)`: "if the value is found then Ok is returned, containing the index of the matching
+/// element [any one of several]; if not found then Err"; meaningful only on a list sorted by that key (the precondition)
+#[verifier::external_body]
+pub fn bsearch_by_first<A, B, C>(v: &Vec<(A, B, C)>, k: &A) -> (r: core::result::Result<usize, usize>)
+    requires sorted_by_first(v@),
+    ensures match r { Ok(i) => i < v@.len() && v@[i as int].0 == *k && v@.contains(v@[i as int]), Err(_) => forall|x: (A, B, C)| #[trigger] v@.contains(x) ==> x.0 != *k }
+{ unimplemented!() }
+// ---- std::time: one reading of the clock as whole seconds since the epoch, or an error for a clock set before 1970 (TRUSTED) ----
+pub uninterp spec fn clock_secs() -> u64;
+pub uninterp spec fn clock_before_epoch() -> bool;
+pub struct SystemTime { pub s: u64, pub before_epoch: bool }
+pub struct EpochMark { pub e: u8 }
+pub const UNIX_EPOCH: EpochMark = EpochMark { e: 0 };
+pub struct StdDuration { pub secs: u64 }
+pub struct SystemTimeError { pub e: u8 }
+impl SystemTime {
+    #[verifier::external_body]
+    pub fn now() -> (r: SystemTime) ensures r.s == clock_secs(), r.before_epoch == clock_before_epoch() { unimplemented!() }
+    pub fn duration_since(&self, _e: EpochMark) -> (r: core::result::Result<StdDuration, SystemTimeError>)
+        ensures match r { Ok(d) => !self.before_epoch && d.secs == self.s, Err(_) => self.before_epoch }
+    { if self.before_epoch { Err(SystemTimeError { e: 0 }) } else { Ok(StdDuration { secs: self.s }) } }
+}
+impl StdDuration { pub fn as_secs(&self) -> (r: u64) ensures r == self.secs { self.secs } }
+pub assume_specification<T, E> [core::result::Result::<T, E>::unwrap_or] (r: core::result::Result<T, E>, d: T) -> (o: T)
+    ensures o == (match r { Ok(v) => v, Err(_) => d });
+/// rule R36: a HashSet consumed by a `for` loop: every element once, in an unspecified order (TRUSTED stand-in of HashSet::into_iter)
+#[verifier::external_body]
+pub fn hashset_into_vec(s: HashSet<Uuid>) -> (r: Vec<Uuid>)
+    ensures r@.no_duplicates(), forall|x: Uuid| #![trigger r@.contains(x)] r@.contains(x) <==> s@.contains(x)
+{ unimplemented!() }
+/// a Vec of 40-byte elements never holds more than isize::MAX / 40 of them (std: allocations are at most isize::MAX bytes)
+pub axiom fn axiom_version_list_len(v: &Vec<(Uuid, Uuid, u64)>)
+    ensures v@.len() < usize::MAX;
